@@ -406,8 +406,9 @@ def gen(seed, run, tier='quick'):
                             f"{rng.randrange(1, 10 ** 7)}/100"])
             if d is not None and rng.random() < 0.15:
                 # the effective date given as datetime (a datetime is a
-                # date: the day it lies in)
-                ops[-1].append('dt')
+                # date: the day it lies in) - naive, or aware with an
+                # offset under which that day has just begun or nearly ended
+                ops[-1].append(rng.choice(['dt', 'dt+14', 'dt-12']))
         elif k == 'clock':
             ops.append(['clock', some_date().isoformat(),
                         rng.randrange(8)])
@@ -844,7 +845,13 @@ def execute(h):
         a, b = op[2] % n_cur, op[3] % n_cur
         d = None if op[4] is None else dt.date.fromisoformat(op[4])
         d_lib = d
-        if d is not None and op[-1] == 'dt':
+        if d is not None and op[-1] in ('dt+14', 'dt-12'):
+            d_lib = dt.datetime.combine(
+                d, dt.time(0, 30) if op[-1] == 'dt+14' else dt.time(23, 30),
+                tzinfo=dt.timezone(dt.timedelta(
+                    hours=14 if op[-1] == 'dt+14' else -12)))
+            bump(probes, 'effective_date_given_as_aware_datetime')
+        elif d is not None and op[-1] == 'dt':
             d_lib = dt.datetime.combine(d, dt.time(13, 30))
             bump(probes, 'effective_date_given_as_datetime')
         conv = convs[ci]
